@@ -578,3 +578,12 @@ def c08_k(ctx):
         a1[0] == 'sub' and a1[2] == ex.term(tgt.slice) and a1[2][0] == 'elem'
     ctx.check(ok, g, 'row i of the result from row i of the input', 'grads[i] = numgrad(.., x[i])',
               'the gradient stored in row i is not computed at row i of the input', fn=g, node=st)
+
+
+@obligation('C08-l', 'T12', 'a returned result buffer does not inherit the dtype of the caller\'s '
+            'array (package sweep; shared with C10-k)', floor=1,
+            necessary='the gradient of the log density written into an integer buffer is '
+                      'truncated towards zero: it is not the derivative for integer-typed input')
+def c08_l(ctx):
+    from .base import inherited_dtype_obligation
+    inherited_dtype_obligation(ctx)
